@@ -7,36 +7,36 @@
     TLC checks the clauses of the statement on the specification itself (invariant Laws: single measurement unwrapped,
     several -> tuple of the single results, shot vector -> outer tuple of the single-execution results, broadcasting = one
     leading axis, Jacobian = result nesting with the parameter axes appended).
-(R) spec -> code: TLC emits each request with the expected trees; the driver runs the request through QNodes, qp.execute,
-    gradient transforms, device derivatives and the framework Jacobians on default.qubit / default.mixed /
-    reference.qubit x numpy / autograd / jax / torch x backprop / parameter-shift / adjoint and compares the trees.
+(R) spec -> code: TLC emits each request with the expected trees; the driver (harness/c32_driver.py) runs the request
+    through QNodes, qp.execute, gradient transforms, device derivatives, JacobianProductCalculators and the framework
+    Jacobians on default.qubit / default.mixed / reference.qubit x numpy / autograd / jax / torch x backprop /
+    parameter-shift / adjoint and the observed trees are compared with the emitted ones.
 (T) code -> spec: seeded larger requests (3 wires, longer measurement lists and shot vectors, batches of up to 3 tapes)
     are executed on seeded configurations, one JSON record per observation (request + observed tree, nothing about the
-    configuration); Trace_ResultShape.tla recomputes the tree from the request and prints a verdict per record."""
+    configuration); Trace_ResultShape.tla recomputes the tree from the request and prints a verdict per record.
+The evaluations are planned first (seeded), the jax ones run in a worker process beside the others, then all are judged."""
 import json
+import os
 import random
-import warnings
-
-import numpy as np
-
-import pennylane as qp
-from pennylane import numpy as pnp
+import subprocess
+import sys
+import time
 
 from .. import lib
+from ..c32_driver import execute, locate, show
 from ..lib import CheckResult, Violation
-
-warnings.filterwarnings("ignore")
-import jax  # noqa: E402
-import jax.numpy as jnp  # noqa: E402
-import torch  # noqa: E402
-
-jax.config.update("jax_enable_x64", True)
 
 DEVICES = ["default.qubit", "default.mixed", "reference.qubit"]
 ITFS = ["numpy", "autograd", "jax", "torch"]
 DMS = ["none", "backprop", "parameter-shift", "adjoint"]
-OBS = [qp.Z, qp.X, qp.Y]
-NOTREE = {"k": "A", "s": [], "c": []}
+BASE = ("default.qubit", "numpy", "none")
+ALLCFG = [(d, i, m) for d in DEVICES for i in ITFS for m in DMS]
+FAST = [c for c in ALLCFG if c[1] != "jax"]
+JAXC = [c for c in ALLCFG if c[1] == "jax"]
+DIFF_FAST = [c for c in FAST if c[1] != "numpy" and c[2] != "none"]
+DIFF_JAX = [c for c in JAXC if c[2] != "none"]
+TAPE_LEVEL = [(d, "numpy", "parameter-shift") for d in DEVICES] + [("default.qubit", "numpy", "adjoint")]
+W = {"numpy": 2, "autograd": 3, "torch": 1}          # torch calls cost about ten times an autograd call
 
 
 # ------------------------------------------------------------------------------------------ request -> TLA+ text
@@ -60,269 +60,23 @@ def M(kind, w=0):
     return {"kind": kind, "w": w}
 
 
-# ------------------------------------------------------------------------------------------ observation helpers
-def tree_of(x):
-    """abstract shape tree of a returned object (list == tuple, as the return type specification says)"""
-    if isinstance(x, (tuple, list)):
-        return {"k": "T", "s": [], "c": [tree_of(y) for y in x]}
-    if isinstance(x, dict):
-        return {"k": "D", "s": [], "c": []}
-    if isinstance(x, np.ndarray) and x.dtype == object:       # documented: counts after broadcast_expand
-        return {"k": "T", "s": [], "c": [tree_of(y) for y in x]}
-    shape = tuple(x.shape) if hasattr(x, "shape") else np.shape(x)
-    return {"k": "A", "s": [int(d) for d in shape], "c": []}
-
-
-def show(tr):
-    if tr["k"] == "T":
-        return "(" + ", ".join(show(c) for c in tr["c"]) + ("," if len(tr["c"]) == 1 else "") + ")"
-    return "dict" if tr["k"] == "D" else "A" + str(tr["s"]).replace(" ", "")
-
-
-def locate(exp, obs, path=()):
-    """first difference: (clause, path) with clause 'nesting' | 'shape', or None"""
-    if exp["k"] != obs["k"]:
-        return "nesting", path
-    if exp["k"] == "T":
-        if len(exp["c"]) != len(obs["c"]):
-            return "nesting", path
-        hit = None
-        for i, (e, o) in enumerate(zip(exp["c"], obs["c"])):
-            r = locate(e, o, path + (i,))
-            if r and r[0] == "nesting":
-                return r
-            hit = hit or r
-        return hit
-    if exp["k"] == "A" and exp["s"] != obs["s"]:
-        return "shape", path
-    return None
-
-
-def conv(v, itf, train=False):
-    a = np.asarray(v, dtype=float)
-    if itf == "numpy":
-        return float(a) if a.shape == () else a
-    if itf == "autograd":
-        return pnp.array(a, requires_grad=train)
-    if itf == "jax":
-        return jnp.asarray(a)
-    return torch.tensor(a, dtype=torch.float64, requires_grad=train)
-
-
-def build_meas(m, i, n):
-    w = i % n
-    ws = [(w + j) % n for j in range(m["w"])]
-    k = m["kind"]
-    if k == "expval":
-        return qp.expval(OBS[i % 3](w))
-    if k == "var":
-        return qp.var(OBS[i % 3](w))
-    if k == "probs":
-        return qp.probs(wires=ws) if ws else qp.probs()
-    if k == "sample":
-        return qp.sample(wires=ws) if ws else qp.sample()
-    if k == "sampleobs":
-        return qp.sample(OBS[i % 3](w))
-    if k == "counts":
-        return qp.counts(wires=ws) if ws else qp.counts()
-    if k == "state":
-        return qp.state()
-    if k == "dm":
-        return qp.density_matrix(ws)
-    if k == "purity":
-        return qp.purity(wires=ws)
-    if k == "vnentropy":
-        return qp.vn_entropy(wires=ws)
-    raise lib.MachineryError(f"unknown measurement kind {k}")
-
-
-def shots_arg(t, variant):
-    """the Python shots argument for the expanded list (several equivalent spellings)"""
-    sh = t["shots"]
-    if not sh:
-        return None
-    if len(sh) == 1:
-        return sh[0] if variant % 2 == 0 else [sh[0]]
-    if variant % 2 and len(set(sh)) == 1:
-        return [(sh[0], len(sh))]
-    return list(sh) if variant % 3 else tuple(sh)
-
-
-def entangle(n):
-    ops = [qp.RY(0.4, 1), qp.CNOT([0, 1])]
-    if n >= 3:
-        ops += [qp.RY(0.5, 2), qp.CNOT([1, 2])]
-    return ops
-
-
-def bvec(b):
-    return 0.3 if b == 0 else np.linspace(0.1, 0.5, b)
-
-
-def build_script(t, n, itf, variant, params=None):
-    """QuantumScript for a request.  params: list of trainable scalars (tape-level Jacobians), else one (broadcast) RX"""
-    if params is None:
-        ops = [qp.RX(conv(bvec(t["b"]), itf, train=True), 0)] + entangle(n)
-        tp = None
-    else:
-        ops = [(qp.RX, qp.RY)[j % 2](p, j % n) for j, p in enumerate(params)] + [qp.CNOT([0, 1])]
-        if n >= 3:
-            ops.append(qp.CNOT([1, 2]))
-        if t["b"]:
-            ops.append(qp.RZ(bvec(t["b"]), 0))
-            ops.append(qp.Hadamard(0))
-        tp = list(range(len(params)))
-    ms = [build_meas(m, i, n) for i, m in enumerate(t["meas"])]
-    return qp.tape.QuantumScript(ops, ms, shots=shots_arg(t, variant), trainable_params=tp)
-
-
-def make_qnode(t, n, dev, itf, dm, variant, argshapes=None):
-    b = t["b"]
-
-    def measure():
-        ms = [build_meas(m, i, n) for i, m in enumerate(t["meas"])]
-        return ms[0] if len(ms) == 1 else tuple(ms)
-
-    if argshapes is None:
-        def f(x):
-            qp.RX(x, 0)
-            for op in entangle(n):
-                qp.apply(op)
-            return measure()
-    else:
-        def f(*args):
-            j = 0
-            for a, shp in zip(args, argshapes):
-                for idx in np.ndindex(*shp):
-                    (qp.RX, qp.RY)[j % 2](a[idx] if shp else a, j % n)
-                    j += 1
-            qp.CNOT([0, 1])
-            if n >= 3:
-                qp.CNOT([1, 2])
-            if b:
-                qp.RZ(bvec(b), 0)
-                qp.Hadamard(0)
-            return measure()
-    qn = qp.QNode(f, dev, interface=None if itf == "numpy" else itf, diff_method=None if dm == "none" else dm)
-    return qp.set_shots(qn, shots_arg(t, variant))
-
-
-def arg_values(argshapes, itf):
-    vals, k = [], 0
-    for shp in argshapes:
-        size = int(np.prod(shp)) if shp else 1
-        a = (0.1 + 0.17 * (k + np.arange(size))).reshape(shp)
-        k += size
-        vals.append(conv(a, itf, train=True))
-    return vals
-
-
-def flat_leaves(x):
-    if isinstance(x, (tuple, list)):
-        out = []
-        for y in x:
-            out += flat_leaves(y)
-        return out
-    return [x]
-
-
-def regroup(x, it):
-    if isinstance(x, (tuple, list)):
-        return tuple(regroup(y, it) for y in x)
-    return next(it)
-
-
-def qnode_jacobian(qn, vals, itf, res):
-    """framework Jacobian of the QNode with respect to all arguments (None: the framework cannot express it)"""
-    if itf == "autograd":
-        if isinstance(res, (tuple, list)):
-            return None                      # autograd differentiates array-valued functions only
-        return qp.jacobian(qn)(*vals)
-    if itf == "jax":
-        return jax.jacobian(qn, argnums=0 if len(vals) == 1 else tuple(range(len(vals))))(*vals)
-    # torch: functional.jacobian wants a flat tuple of tensors; flatten, differentiate, put back into the result's nesting
-    single = not isinstance(res, (tuple, list))
-
-    def fl(*a):
-        r = qn(*a)
-        return r if single else tuple(flat_leaves(r))
-    jac = torch.autograd.functional.jacobian(fl, vals[0] if len(vals) == 1 else tuple(vals))
-    return jac if single else regroup(res, iter(jac))
-
-
-class Runner:
-    """Executes requests on the real code; every method returns the observed tree or raises the code's exception."""
-
-    def __init__(self):
-        self.devs = {}
-
-    def dev(self, name, n):
-        if (name, n) not in self.devs:
-            self.devs[(name, n)] = qp.device(name, wires=n)
-        return self.devs[(name, n)]
-
-    def res_qnode(self, t, n, cfg, variant):
-        d, itf, dm = cfg
-        qn = make_qnode(t, n, self.dev(d, n), itf, dm, variant)
-        return tree_of(qn(conv(bvec(t["b"]), itf, train=True)))
-
-    def res_batch(self, ts, n, cfg, variant):
-        d, itf, dm = cfg
-        batch = [build_script(t, n, itf, variant + i) for i, t in enumerate(ts)]
-        out = qp.execute(batch, self.dev(d, n), diff_method=None if dm == "none" else dm,
-                         interface=None if itf == "numpy" else itf)
-        return tree_of(out)
-
-    def jac_qnode(self, t, n, cfg, variant, argshapes):
-        """-> (result tree, jacobian tree or None)"""
-        d, itf, dm = cfg
-        qn = make_qnode(t, n, self.dev(d, n), itf, dm, variant, argshapes)
-        vals = arg_values(argshapes, itf)
-        res = qn(*vals)
-        jac = qnode_jacobian(qn, vals, itf, res)
-        return tree_of(res), (None if jac is None else tree_of(jac))
-
-    def jac_tape(self, t, n, d, how, variant, P):
-        params = [0.1 + 0.17 * k for k in range(P)]
-        tape = build_script(t, n, "numpy", variant, params=params)
-        dev = self.dev(d, n)
-        if how == "parameter-shift":
-            gt, fn = qp.gradients.param_shift(tape)
-            return tree_of(fn(qp.execute(gt, dev, diff_method=None)))
-        cfg = qp.devices.ExecutionConfig(gradient_method="adjoint")
-        cfg = dev.setup_execution_config(cfg, tape)
-        batch, post = dev.preprocess_transforms(cfg)([tape])
-        if len(batch) != 1:
-            raise NotImplementedError("preprocessing split the tape")
-        return tree_of(dev.compute_derivatives(batch[0], cfg))
-
-    def jac_batch(self, ts, n, d, how, variant, Ps):
-        from pennylane.workflow.jacobian_products import DeviceDerivatives, TransformJacobianProducts
-        dev = self.dev(d, n)
-        batch = tuple(build_script(t, n, "numpy", variant + i, params=[0.1 + 0.17 * k for k in range(P)])
-                      for i, (t, P) in enumerate(zip(ts, Ps)))
-        if how == "parameter-shift":
-            jpc = TransformJacobianProducts(lambda b: qp.execute(b, dev, diff_method=None), qp.gradients.param_shift)
-        else:
-            cfg = dev.setup_execution_config(qp.devices.ExecutionConfig(gradient_method="adjoint"), batch[0])
-            batch, _ = dev.preprocess_transforms(cfg)(batch)
-            jpc = DeviceDerivatives(dev, cfg)
-        return tree_of(jpc.compute_jacobian(tuple(batch)))
-
-
 def supported(cfg, t):
     """configurations that the library documents as unsupported are not attempted (everything else is, and an exception is counted)"""
     d, itf, dm = cfg
     if dm == "backprop" and (t["shots"] or d == "reference.qubit"):
         return False
-    if dm == "adjoint" and (t["shots"] or d != "default.qubit"):
-        return False
+    if dm == "adjoint" and (t["shots"] or d != "default.qubit" or any(m["kind"] != "expval" for m in t["meas"])):
+        return False          # adjoint differentiation: analytic expectation values on default.qubit
     if d == "default.mixed" and any(m["kind"] == "state" for m in t["meas"]):
         return False          # documented: qp.state() on a mixed-state device is the density matrix
     return True
 
 
-def meas_at(t, what, path):
+def union_tape(ts):
+    return {"shots": max((t["shots"] for t in ts), key=len), "meas": sum((t["meas"] for t in ts), []), "b": 0}
+
+
+def meas_at(t, path):
     """measurement kind at the position `path` of a tree of one tape"""
     p = list(path)
     if len(t["shots"]) > 1:
@@ -337,6 +91,39 @@ def meas_at(t, what, path):
 def sig_tape(t):
     sh = "analytic" if not t["shots"] else ("shots" if len(t["shots"]) == 1 else "shotvector")
     return f"b={t['b'] if t['b'] < 2 else 'n'}:{sh}:{'single' if len(t['meas']) == 1 else 'multi'}"
+
+
+def run_jobs(jobs, wd):
+    """execute the planned jobs: the jax ones in a worker process, the others here; -> {id: result}"""
+    jj = [j for j in jobs if j["cfg"][1] == "jax"]
+    proc = None
+    if jj:
+        (wd / "jax_jobs.json").write_text(json.dumps(jj))
+        env = dict(os.environ)
+        env["PYTHONPATH"] = os.pathsep.join(p for p in (env.get("PYTHONPATH"), str(lib.VERIF)) if p)
+        proc = subprocess.Popen([sys.executable, "-W", "ignore", "-m", "harness.c32_driver", str(wd / "jax_jobs.json"), str(wd / "jax_out.json")],
+                                cwd=str(lib.VERIF), env=env, stdout=subprocess.DEVNULL, stderr=subprocess.PIPE, text=True)
+    res, cpu = {}, {}
+    for j in jobs:
+        if j["cfg"][1] != "jax":
+            t0 = time.process_time()
+            res[j["id"]] = execute(j)
+            a = cpu.setdefault(j["cfg"][1], [0, 0.0])
+            a[0] += 1
+            a[1] += time.process_time() - t0
+    t0 = time.time()
+    if proc:
+        try:
+            _, err = proc.communicate(timeout=3000)
+        except subprocess.TimeoutExpired:
+            proc.kill()
+            raise lib.MachineryError("the jax worker timed out")
+        if proc.returncode != 0:
+            raise lib.MachineryError("the jax worker failed: " + err[-800:])
+        for r in json.loads((wd / "jax_out.json").read_text()):
+            res[r["id"]] = r
+        cpu["jax"] = [len(jj), 0.0]
+    return res, {k: [v[0], round(v[1], 1)] for k, v in cpu.items()}, round(time.time() - t0, 1)
 
 
 # ------------------------------------------------------------------------------------------ the check
@@ -370,11 +157,109 @@ def run(tier, seed):
     if len(fam["tape"]) < 1000 or len(fam["jac"]) < 200 or len(fam["batch"]) < 40:
         raise lib.MachineryError("generator produced too few cases: " + str({k: len(v) for k, v in fam.items()}))
 
-    R = Runner()
+    # ================================================================ plan (seeded, nothing is executed here)
+    jobs = []
+    jrot = [0]
+
+    def job(op, nn, ts, cfg, variant, args=(), ps=()):
+        jobs.append(dict(id=len(jobs), op=op, n=nn, tapes=ts, cfg=list(cfg), variant=variant, args=list(args), ps=list(ps)))
+        return jobs[-1]["id"]
+
+    def pick_cfgs(t, k_fast, use_jax, pool_fast=FAST, pool_jax=JAXC):
+        """seeded choice of configurations for one request: k_fast non-jax ones (+ one jax configuration when asked)"""
+        pf = [c for c in pool_fast if supported(c, t) and c != BASE]
+        pj = [c for c in pool_jax if supported(c, t)]
+        if k_fast == 1 and pf:
+            out = rng.choices(pf, weights=[W[c[1]] for c in pf], k=1)
+        else:
+            out = rng.sample(pf, min(k_fast, len(pf)))
+        if pj and use_jax:
+            want = DEVICES[jrot[0] % len(DEVICES)]         # rotate over the devices so that each one is seen through jax
+            jrot[0] += 1
+            out.append(rng.choice([c for c in pj if c[0] == want] or pj))
+        return out
+
+    def slots(total, k):
+        """k seeded positions out of `total` at which a jax configuration is added (a jax call costs about a second)"""
+        return set(rng.sample(range(total), min(k, total)))
+
+    # (R1) results of single circuits: QNode call, or qp.execute of a batch of one (every fourth evaluation)
+    k_fast, jx = (1, slots(len(fam["tape"]), 9)) if quick else (14, slots(len(fam["tape"]), 200))
+    for ci, item in enumerate(fam["tape"]):
+        t = item["c"]["tapes"][0]
+        cfgs = [BASE] + ([] if quick else [(d, "numpy", "none") for d in DEVICES[1:] if supported((d, "numpy", "none"), t)])
+        cfgs += pick_cfgs(t, k_fast, ci in jx)
+        cfgs += [c for c in FAST if c[2] == "adjoint" and supported(c, t)]          # few requests admit adjoint: take them all
+        item["jobs"] = [job("res_batch" if (ci + k) % 4 == 3 else "res_qnode", n, [t], cfg, ci) for k, cfg in enumerate(dict.fromkeys(cfgs))]
+    # (R2) batches: results on every device + sampled configurations; Jacobians of the batch through the JacobianProductCalculators
+    for ci, item in enumerate(fam["batch"]):
+        ts = item["c"]["tapes"]
+        worst = union_tape(ts)
+        cfgs = [(d, "numpy", "none") for d in DEVICES if supported((d, "numpy", "none"), worst)]
+        cfgs += pick_cfgs(worst, 2, ci % (20 if quick else 2) == 1)
+        item["jobs"] = [job("res_batch", n, ts, cfg, ci) for cfg in dict.fromkeys(cfgs)]
+        if item["exp"]["P"] and locate(item["exp"]["res"], item["drift"]["bsq"]) is None:      # (not on the batch-size-1 drift requests)
+            item["jobs"] += [job("jac_batch", n, ts, cfg, ci, ps=[2] * len(ts)) for cfg in TAPE_LEVEL if cfg[0] != "reference.qubit"
+                             and supported(cfg, worst)]
+    # (R3) Jacobians: framework Jacobian of the QNode, and tape-level Jacobians (gradient transform / device derivatives)
+    k_fast, jx = (1, slots(len(fam["jac"]), 6)) if quick else (100, slots(len(fam["jac"]), 150))
+    for ci, item in enumerate(fam["jac"]):
+        t, args = item["c"]["tapes"][0], item["c"]["args"]
+        cfgs = pick_cfgs(t, k_fast, ci in jx, DIFF_FAST, DIFF_JAX) + [c for c in DIFF_FAST if c[2] == "adjoint" and supported(c, t)]
+        item["jobs"] = [job("jac_qnode", n, [t], cfg, ci, args=args) for cfg in dict.fromkeys(cfgs)]
+        item["jobs"] += [job("jac_tape", n, [t], cfg, ci, ps=[item["exp"]["P"]])
+                         for cfg in ([TAPE_LEVEL[ci % len(TAPE_LEVEL)]] if quick else TAPE_LEVEL) if supported(cfg, t)]
+    # (T) seeded larger requests, recorded and judged by Trace_ResultShape.tla
+    kinds_a = amea + [M("probs", 2), M("dm", 2), M("vnentropy", 1)]
+    kinds_f = fmea + [M("probs", 2), M("sample", 2), M("counts", 1)]
+
+    def rand_tape(nn, diffable=False, finite=None):
+        finite = rng.random() < 0.6 if finite is None else finite
+        pool = [m for m in (kinds_f if finite else kinds_a) if m["w"] <= nn]
+        if diffable:
+            pool = [m for m in pool if m["kind"] in ("expval", "var", "probs")]
+        ms = [dict(rng.choice(pool)) for _ in range(rng.choice([1, 1, 2, 3, 4]))]
+        sh = [rng.randint(1, 7) for _ in range(rng.choice([1, 1, 2, 3]))] if finite else []
+        if len(sh) > 1 and rng.random() < 0.3:
+            sh[1] = sh[0]
+        return {"shots": sh, "meas": ms, "b": 0 if diffable else rng.choice([0, 0, 1, 2, 4])}
+
+    n_rand = 200 if quick else 4000
+    jax_every = 70 if quick else 12
+    tjobs = []
+    for i in range(n_rand):
+        nn = rng.choice([2, 3])
+        r = rng.random()
+        if r < 0.45:
+            t = rand_tape(nn)
+            cfg = rng.choice([c for c in (JAXC if i % jax_every == 7 else FAST) if supported(c, t)])
+            tjobs.append(job("res_qnode", nn, [t], cfg, i))
+        elif r < 0.65:
+            ts = [rand_tape(nn) for _ in range(rng.randint(1, 3))]
+            tjobs.append(job("res_batch", nn, ts, rng.choice([c for c in FAST if supported(c, union_tape(ts))]), i))
+        elif r < 0.85:
+            t = rand_tape(nn, diffable=True)
+            args = rng.choice(jargs + [[[3]], [[], [2]]])
+            cfg = rng.choice([c for c in (DIFF_JAX if i % jax_every == 3 else DIFF_FAST) if supported(c, t)])
+            tjobs.append(job("jac_qnode", nn, [t], cfg, i, args=args))
+        else:
+            ts = [rand_tape(nn, diffable=True, finite=rng.random() < 0.5) for _ in range(rng.randint(1, 2))]
+            cfg = rng.choice(TAPE_LEVEL)
+            if all(supported(cfg, t) for t in ts):
+                tjobs.append(job("jac_tape" if len(ts) == 1 else "jac_batch", nn, ts, cfg, i, ps=[rng.randint(1, 3) for _ in ts]))
+
+    # ================================================================ execute
+    t0 = time.time()
+    results, cpu_by_itf, jax_wait = run_jobs(jobs, lib.workdir("C32", "jobs"))
+    exec_wall = round(time.time() - t0, 1)
+
+    # ================================================================ judge
     viol, seen_keys = [], {}
     stats = {"evaluations": 0, "agree": 0, "exceptions": 0, "not_expressible": 0}
-    per_cfg, exc_types, nontriv, samples = {}, {}, set(), []
-    drift = {"counts_broadcast": 0}
+    per_cfg, exc_types, exc_examples, nontriv, samples = {}, {}, {}, set(), []
+    drift = {"counts_broadcast": 0, "batch1_sampled_statistic_axis_dropped": 0}
+    b1_behaviour = {"documented": {}, "variant": {}}       # configuration -> example request, on requests where the two trees differ
+    base_exc = []
 
     def flag(what, clause, where, cfg, req, exp, obs, origin):
         key = f"{what}:{clause}:{where}:{cfg[0]}:{cfg[1]}:{cfg[2]}"
@@ -382,132 +267,116 @@ def run(tier, seed):
         if seen_keys[key] > 1:
             return
         viol.append(Violation(key=key, detail=f"{what} of request {json.dumps(req)} on device={cfg[0]} interface={cfg[1]} "
-                                             f"diff_method={cfg[2]}: expected {show(exp)} got {show(obs)} [{origin}]",
+                                             f"diff_method={cfg[2]}: expected {show(exp) if exp else '(recomputed by TLC)'} got {show(obs)} [{origin}]",
                               replay={"request": req, "config": list(cfg), "what": what, "expected": exp, "observed": obs}))
 
-    def judge(what, req, t, cfg, exp, obs, origin="replay of TLC case"):
-        """compare one observed tree with the tree emitted by TLC"""
+    def pcfg(cfg):
+        return per_cfg.setdefault("/".join(cfg), {"ok": 0, "bad": 0, "exc": 0})
+
+    def outcome(jid):
+        """result of a job, or None when the code raised (an unsupported configuration: counted by exception class)"""
+        r, cfg = results[jid], tuple(jobs[jid]["cfg"])
+        if r["exc"] is None:
+            return r
+        stats["exceptions"] += 1
+        pcfg(cfg)["exc"] += 1
+        name = r["exc"][0]
+        exc_types[name] = exc_types.get(name, 0) + 1
+        if len(exc_examples) < 12:
+            exc_examples.setdefault(f"{'/'.join(cfg)}: {name}", r["exc"][1][:160])
+        if cfg == BASE:
+            base_exc.append(f"{name}: {r['exc'][1]}")
+        return None
+
+    def judge(what, req, t, cfg, exp, obs, variant=None):
+        """compare one observed tree with the tree emitted by TLC (variant: the tolerated batch-size-1 tree emitted by TLC)"""
         stats["evaluations"] += 1
-        pc = per_cfg.setdefault("/".join(cfg), {"ok": 0, "bad": 0, "exc": 0})
         r = locate(exp, obs)
+        if variant is not None and locate(exp, variant) is not None:        # a request on which documented and variant tree differ
+            if r is None:
+                b1_behaviour["documented"].setdefault(cfg, req)
+            elif locate(variant, obs) is None:
+                b1_behaviour["variant"].setdefault(cfg, req)
+                drift["batch1_sampled_statistic_axis_dropped"] += 1
+                pcfg(cfg)["ok"] += 1
+                return True
         if r is None:
             stats["agree"] += 1
-            pc["ok"] += 1
+            pcfg(cfg)["ok"] += 1
             return True
         clause, path = r
-        kind = meas_at(t, what, path[1:] if what in ("bres", "bjt") else path) if t else "*"
+        kind = meas_at(t, path[1:] if what in ("bres", "bjt") else path) if t else "*"
         if kind == "counts" and t and t["b"] > 0:
             drift["counts_broadcast"] += 1        # documented: non-tensorlike results may handle broadcasting differently
             return True
-        pc["bad"] += 1
-        flag(what, clause, f"{sig_tape(t) if t else 'batch'}:{kind}", cfg, req, exp, obs, origin)
+        pcfg(cfg)["bad"] += 1
+        flag(what, clause, f"{sig_tape(t) if t else 'batch'}:{kind}", cfg, req, exp, obs, "replay of TLC case")
         return False
 
-    def attempt(cfg, f):
-        try:
-            return f()
-        except Exception as e:  # noqa: BLE001 - an unsupported configuration; the exception class is counted
-            stats["exceptions"] += 1
-            per_cfg.setdefault("/".join(cfg), {"ok": 0, "bad": 0, "exc": 0})["exc"] += 1
-            exc_types[type(e).__name__] = exc_types.get(type(e).__name__, 0) + 1
-            if cfg == BASE:
-                base_exc.append(f"{type(e).__name__}: {str(e)[:200]}")
-            return None
-
-    BASE = ("default.qubit", "numpy", "none")
-    base_exc = []
-    allcfg = [(d, i, m) for d in DEVICES for i in ITFS for m in DMS]
-    fast_cfg = [c for c in allcfg if c[1] != "jax"]
-    jax_cfg = [c for c in allcfg if c[1] == "jax"]
-
-    def pick_cfgs(t, k_fast, p_jax, pool_fast=fast_cfg, pool_jax=jax_cfg):
-        pf = [c for c in pool_fast if supported(c, t)]
-        pj = [c for c in pool_jax if supported(c, t)]
-        out = rng.sample(pf, min(k_fast, len(pf)))
-        if pj and rng.random() < p_jax:
-            out.append(rng.choice(pj))
-        return out
-
-    # ------------------------------------------------------------ (R1) results of single circuits: QNode and batch of one
-    k_fast, p_jax = (2, 0.08) if quick else (12, 0.5)
+    # ---- (R1)
     for ci, item in enumerate(fam["tape"]):
-        c, exp = item["c"], item["exp"]
+        c, exp, dr = item["c"], item["exp"], item["drift"]
         t = c["tapes"][0]
-        cfgs = [(d, "numpy", "none") for d in DEVICES if supported((d, "numpy", "none"), t)] + pick_cfgs(t, k_fast, p_jax)
         allok = True
-        for k, cfg in enumerate(dict.fromkeys(cfgs)):
-            if (ci + k) % 4 == 3:          # every fourth evaluation goes through qp.execute as a batch of one
-                obs = attempt(cfg, lambda: R.res_batch([t], n, cfg, ci))
-                if obs is not None:
-                    allok &= judge("bres", c, t, cfg, exp["bres"], obs)
+        for jid in item["jobs"]:
+            r, cfg = outcome(jid), tuple(jobs[jid]["cfg"])
+            if r is None:
+                continue
+            if jobs[jid]["op"] == "res_batch":
+                allok &= judge("bres", c, t, cfg, exp["bres"], r["obs"], dr["bsq"])
             else:
-                obs = attempt(cfg, lambda: R.res_qnode(t, n, cfg, ci))
-                if obs is not None:
-                    allok &= judge("res", c, t, cfg, exp["res"], obs)
+                allok &= judge("res", c, t, cfg, exp["res"], r["obs"], dr["sq"])
         if allok and (exp["res"]["k"] == "T" or t["b"]):
             nontriv.add(json.dumps(c, sort_keys=True))
         if len(samples) < 2 and len(t["shots"]) > 1 and len(t["meas"]) > 1 and t["b"] == 3 and allok and ci % 7 == len(samples):
             samples.append({"request": t, "expected_result": show(exp["res"])})
-    # ------------------------------------------------------------ (R2) batches
-    for ci, item in enumerate(fam["batch"]):
-        c, exp = item["c"], item["exp"]
+    # ---- (R2)
+    for item in fam["batch"]:
+        c, exp, dr = item["c"], item["exp"], item["drift"]
         ts = c["tapes"]
-        worst = {"shots": max((t["shots"] for t in ts), key=len), "meas": sum((t["meas"] for t in ts), []), "b": 0}
-        cfgs = [(d, "numpy", "none") for d in DEVICES if supported((d, "numpy", "none"), worst)] + pick_cfgs(worst, 2, 0.1 if quick else 1)
+        one = None if len(ts) > 1 else ts[0]
         allok = True
-        for cfg in dict.fromkeys(cfgs):
-            obs = attempt(cfg, lambda: R.res_batch(ts, n, cfg, ci))
-            if obs is not None:
-                allok &= judge("bres", c, None if len(ts) > 1 else ts[0], cfg, exp["res"], obs)
-        if exp["P"]:
-            for d, how in (("default.qubit", "parameter-shift"), ("default.mixed", "parameter-shift"), ("default.qubit", "adjoint")):
-                cfg = (d, "numpy", how)
-                if supported(cfg, worst):
-                    obs = attempt(cfg, lambda: R.jac_batch(ts, n, d, how, ci, [2] * len(ts)))
-                    if obs is not None:
-                        allok &= judge("bjt", c, None if len(ts) > 1 else ts[0], cfg, exp["jt"], obs)
+        for jid in item["jobs"]:
+            r, cfg = outcome(jid), tuple(jobs[jid]["cfg"])
+            if r is None:
+                continue
+            if jobs[jid]["op"] == "res_batch":
+                allok &= judge("bres", c, one, cfg, exp["res"], r["obs"], dr["bsq"])
+            else:
+                allok &= judge("bjt", c, one, cfg, exp["jt"], r["jac"])
         if allok:
             nontriv.add(json.dumps(c, sort_keys=True))
         if len(samples) < 3 and len(ts) == 2 and allok and ts[0] != ts[1] and len(ts[1]["shots"]) > 1:
             samples.append({"batch": ts, "expected_result": show(exp["res"])})
-    # ------------------------------------------------------------ (R3) Jacobians
+    # ---- (R3)
     jcount = {"jq": 0, "jt": 0, "jq_wrapped": 0, "jq_shotvector": 0, "jq_multi_meas": 0}
-    diff_cfg_fast = [c for c in fast_cfg if c[1] != "numpy" and c[2] != "none"]
-    diff_cfg_jax = [c for c in jax_cfg if c[2] != "none"]
-    k_fast, p_jax = (3, 0.12) if quick else (100, 1.0)
-    for ci, item in enumerate(fam["jac"]):
+    for item in fam["jac"]:
         c, exp = item["c"], item["exp"]
-        t, args = c["tapes"][0], c["args"]
+        t = c["tapes"][0]
         allok = True
-        for cfg in pick_cfgs(t, k_fast, p_jax, diff_cfg_fast, diff_cfg_jax):
-            out = attempt(cfg, lambda: R.jac_qnode(t, n, cfg, ci, args))
-            if out is None:
+        for jid in item["jobs"]:
+            r, cfg = outcome(jid), tuple(jobs[jid]["cfg"])
+            if r is None:
                 continue
-            rt, jt = out
-            allok &= judge("res", c, t, cfg, exp["res"], rt)
-            if jt is None:
+            if jobs[jid]["op"] == "jac_tape":
+                ok = judge("jt", c, t, cfg, exp["jt"], r["jac"])
+                allok &= ok
+                jcount["jt"] += ok
+                continue
+            allok &= judge("res", c, t, cfg, exp["res"], r["obs"])
+            if r["jac"] is None:
                 stats["not_expressible"] += 1
                 continue
-            ok = judge("jq", c, t, cfg, exp["jq"], jt)
+            ok = judge("jq", c, t, cfg, exp["jq"], r["jac"])
             allok &= ok
             jcount["jq"] += ok
             jcount["jq_wrapped"] += ok and c["wrap"]
             jcount["jq_shotvector"] += ok and len(t["shots"]) > 1
             jcount["jq_multi_meas"] += ok and len(t["meas"]) > 1
-        tl = [(d, "parameter-shift") for d in DEVICES] + [("default.qubit", "adjoint")]
-        for d, how in (tl if not quick else rng.sample(tl, 2)):
-            cfg = (d, "numpy", how)
-            if not supported(cfg, t):
-                continue
-            obs = attempt(cfg, lambda: R.jac_tape(t, n, d, how, ci, exp["P"]))
-            if obs is not None:
-                ok = judge("jt", c, t, cfg, exp["jt"], obs)
-                allok &= ok
-                jcount["jt"] += ok
         if allok:
             nontriv.add(json.dumps(c, sort_keys=True))
         if len(samples) < 4 and allok and c["wrap"] and len(t["shots"]) > 1 and len(t["meas"]) > 1:
-            samples.append({"request": t, "arg_shapes": args, "expected_result": show(exp["res"]),
+            samples.append({"request": t, "arg_shapes": c["args"], "expected_result": show(exp["res"]),
                             "expected_qnode_jacobian": show(exp["jq"]), "expected_tape_jacobian": show(exp["jt"])})
     if base_exc:
         raise lib.MachineryError(f"vacuity: the baseline configuration raised on {len(base_exc)} valid requests, e.g. {base_exc[0]}")
@@ -530,85 +399,54 @@ def run(tier, seed):
     if neg_rej != 2:
         raise lib.MachineryError("no case available for the comparator negative controls")
 
-    # ------------------------------------------------------------ (T) recorded observations of seeded larger requests
-    kinds_a = amea + [M("probs", 2), M("dm", 2), M("vnentropy", 1)]
-    kinds_f = fmea + [M("probs", 2), M("sample", 2), M("counts", 1)]
-
-    def rand_tape(nn, diffable=False, finite=None):
-        finite = rng.random() < 0.6 if finite is None else finite
-        pool = [m for m in (kinds_f if finite else kinds_a) if m["w"] <= nn]
-        if diffable:
-            pool = [m for m in pool if m["kind"] in ("expval", "var", "probs")]
-        ms = [dict(rng.choice(pool)) for _ in range(rng.choice([1, 1, 2, 3, 4]))]
-        sh = [rng.randint(1, 7) for _ in range(rng.choice([1, 1, 2, 3]))] if finite else []
-        if len(sh) > 1 and rng.random() < 0.3:
-            sh[1] = sh[0]
-        return {"shots": sh, "meas": ms, "b": 0 if diffable else rng.choice([0, 0, 1, 2, 4])}
-
-    n_rand = 250 if quick else 3000
+    # ---- (T) one record per observation; the record does not say where it was observed
     recs, meta = [], []
 
-    def record(what, nn, ts, args, wrap, ps, obs, cfg):
-        recs.append({"n": nn, "tapes": ts, "args": args, "wrap": wrap, "ps": ps, "what": what, "obs": obs})
-        meta.append(cfg)
+    def record(what, j, obs, args=(), ps=()):
+        recs.append({"n": j["n"], "tapes": j["tapes"], "args": list(args), "wrap": len(args) > 1, "ps": list(ps), "what": what, "obs": obs})
+        meta.append(tuple(j["cfg"]))
 
-    for i in range(n_rand):
-        nn = rng.choice([2, 3])
-        r = rng.random()
-        if r < 0.45:
-            t = rand_tape(nn)
-            cfg = rng.choice([c for c in (allcfg if rng.random() < 0.1 else fast_cfg) if supported(c, t)])
-            obs = attempt(cfg, lambda: R.res_qnode(t, nn, cfg, i))
-            if obs is not None:
-                record("res", nn, [t], [], False, [], obs, cfg)
-        elif r < 0.65:
-            ts = [rand_tape(nn) for _ in range(rng.randint(1, 3))]
-            worst = {"shots": max((t["shots"] for t in ts), key=len), "meas": sum((t["meas"] for t in ts), []), "b": 0}
-            cfg = rng.choice([c for c in fast_cfg if supported(c, worst)])
-            obs = attempt(cfg, lambda: R.res_batch(ts, nn, cfg, i))
-            if obs is not None:
-                record("bres", nn, ts, [], False, [], obs, cfg)
-        elif r < 0.85:
-            t = rand_tape(nn, diffable=True)
-            args = rng.choice(jargs + [[[3]], [[], [2]]])
-            pool = [c for c in (diff_cfg_jax if rng.random() < 0.06 else diff_cfg_fast) if supported(c, t)]
-            cfg = rng.choice(pool)
-            out = attempt(cfg, lambda: R.jac_qnode(t, nn, cfg, i, args))
-            if out is not None:
-                record("res", nn, [t], [], False, [], out[0], cfg)
-                if out[1] is not None:
-                    record("jq", nn, [t], args, len(args) > 1, [], out[1], cfg)
-        else:
-            ts = [rand_tape(nn, diffable=True, finite=rng.random() < 0.5) for _ in range(rng.randint(1, 2))]
-            ps = [rng.randint(1, 3) for _ in ts]
-            d, how = rng.choice([(d, "parameter-shift") for d in DEVICES] + [("default.qubit", "adjoint")])
-            cfg = (d, "numpy", how)
-            if not all(supported(cfg, t) for t in ts):
-                continue
-            if len(ts) == 1:
-                obs = attempt(cfg, lambda: R.jac_tape(ts[0], nn, d, how, i, ps[0]))
-                what = "jt"
+    for jid in tjobs:
+        j, r = jobs[jid], outcome(jid)
+        if r is None:
+            continue
+        if j["op"] == "res_qnode":
+            record("res", j, r["obs"])
+        elif j["op"] == "res_batch":
+            record("bres", j, r["obs"])
+        elif j["op"] == "jac_qnode":
+            record("res", j, r["obs"])
+            if r["jac"] is None:
+                stats["not_expressible"] += 1
             else:
-                obs = attempt(cfg, lambda: R.jac_batch(ts, nn, d, how, i, ps))
-                what = "bjt"
-            if obs is not None:
-                record(what, nn, ts, [], False, ps, obs, cfg)
+                record("jq", j, r["jac"], args=j["args"])
+        else:
+            record("jt" if j["op"] == "jac_tape" else "bjt", j, r["jac"], ps=j["ps"])
     if len(recs) < n_rand // 2:
-        raise lib.MachineryError(f"vacuity: only {len(recs)} of {n_rand} seeded requests produced an observation")
+        raise lib.MachineryError(f"vacuity: only {len(recs)} observations from {n_rand} seeded requests")
     # negative controls for the trace spec: records built from the REQUEST (not from what the code returned)
     t2 = {"shots": [5, 2], "meas": [M("expval"), M("probs", 2)], "b": 0}
-    good = {"k": "T", "s": [], "c": [{"k": "T", "s": [], "c": [{"k": "A", "s": [], "c": []}, {"k": "A", "s": [4], "c": []}]}] * 2}
-    swapped = {"k": "T", "s": [], "c": [{"k": "T", "s": [], "c": [{"k": "A", "s": [], "c": []}] * 2},
-                                        {"k": "T", "s": [], "c": [{"k": "A", "s": [4], "c": []}] * 2}]}
+    sc, p4 = {"k": "A", "s": [], "c": []}, {"k": "A", "s": [4], "c": []}
+
+    def tup(*ch):
+        return {"k": "T", "s": [], "c": list(ch)}
+    good = tup(tup(sc, p4), tup(sc, p4))
     t1 = {"shots": [], "meas": [M("probs", 1)], "b": 1}
-    negs = [("ok", {"n": 3, "tapes": [t2], "args": [], "wrap": False, "ps": [], "what": "res", "obs": good}),
-            ("nesting", {"n": 3, "tapes": [t2], "args": [], "wrap": False, "ps": [], "what": "res", "obs": swapped}),
-            ("nesting", {"n": 3, "tapes": [t2], "args": [], "wrap": False, "ps": [], "what": "res", "obs": good["c"][0]}),
-            ("nesting", {"n": 3, "tapes": [t2], "args": [], "wrap": False, "ps": [], "what": "bres", "obs": good}),
-            ("shape", {"n": 2, "tapes": [t1], "args": [], "wrap": False, "ps": [], "what": "res", "obs": {"k": "A", "s": [2], "c": []}}),
-            ("ok", {"n": 2, "tapes": [t1], "args": [], "wrap": False, "ps": [], "what": "res", "obs": {"k": "A", "s": [1, 2], "c": []}}),
-            ("shape", {"n": 2, "tapes": [t1], "args": [[2]], "wrap": False, "ps": [], "what": "jq", "obs": {"k": "A", "s": [2, 1, 2], "c": []}}),
-            ("nesting", {"n": 2, "tapes": [t1], "args": [], "wrap": False, "ps": [2], "what": "jt", "obs": {"k": "A", "s": [2, 1, 2], "c": []}})]
+    t3 = {"shots": [4], "meas": [M("var")], "b": 1}
+
+    def nrec(nn, t, what, obs, args=(), ps=()):
+        return {"n": nn, "tapes": [t], "args": list(args), "wrap": False, "ps": list(ps), "what": what, "obs": obs}
+    negs = [("ok", nrec(3, t2, "res", good)),
+            ("shape", nrec(3, t2, "res", tup(tup(sc, sc), tup(p4, p4)))),              # shot and measurement levels exchanged
+            ("nesting", nrec(3, t2, "res", good["c"][0])),                             # the shot tuple is missing
+            ("nesting", nrec(3, t2, "bres", good)),                                    # the batch tuple is missing
+            ("nesting", nrec(3, t2, "res", tup(sc, p4, sc, p4))),                      # flattened
+            ("shape", nrec(2, t1, "res", {"k": "A", "s": [2], "c": []})),              # analytic batch of one without its axis
+            ("ok", nrec(2, t1, "res", {"k": "A", "s": [1, 2], "c": []})),
+            ("drift-batch1", nrec(2, t3, "res", sc)),
+            ("ok", nrec(2, t3, "res", {"k": "A", "s": [1], "c": []})),
+            ("shape", nrec(2, t1, "jq", {"k": "A", "s": [2, 1, 2], "c": []}, args=[[2]])),   # parameter axis not last
+            ("nesting", nrec(2, t1, "jt", {"k": "A", "s": [2, 1, 2], "c": []}, ps=[2]))]      # parameters stacked instead of a tuple
     allrecs = recs + [r for _, r in negs]
     wd2 = lib.workdir("C32", "trace")
     (wd2 / "traces.json").write_text(json.dumps(allrecs))
@@ -621,44 +459,60 @@ def run(tier, seed):
     for k, (want, _) in enumerate(negs):
         if verd[len(recs) + k] != want:
             raise lib.MachineryError(f"trace negative control {k} got verdict {verd[len(recs) + k]!r}, wanted {want!r}")
-    neg_rej += sum(1 for w, _ in negs if w != "ok")
+    neg_rej += sum(1 for w, _ in negs if w not in ("ok", "drift-batch1"))
     t_by_what = {}
     for j, (r, cfg) in enumerate(zip(recs, meta)):
         v = verd[j]
         t_by_what[r["what"]] = t_by_what.get(r["what"], 0) + 1
         stats["evaluations"] += 1
-        pc = per_cfg.setdefault("/".join(cfg), {"ok": 0, "bad": 0, "exc": 0})
+        ts = r["tapes"]
+        req = {k: r[k] for k in ("n", "tapes", "args", "wrap", "ps", "what")}
+        b1_req = r["what"] in ("res", "bres") and any(
+            t["b"] == 1 and t["shots"] and any(m["kind"] in ("expval", "var", "probs") for m in t["meas"]) for t in ts)
         if v == "ok":
             stats["agree"] += 1
-            pc["ok"] += 1
+            pcfg(cfg)["ok"] += 1
+            if b1_req:
+                b1_behaviour["documented"].setdefault(cfg, req)
             if r["obs"]["k"] == "T":
-                nontriv.add(json.dumps({k: r[k] for k in ("n", "tapes", "args", "what", "ps")}, sort_keys=True))
+                nontriv.add(json.dumps(req, sort_keys=True))
             if len(samples) < 5 and r["what"] in ("jq", "bjt") and r["obs"]["k"] == "T" and r["n"] == 3:
-                samples.append({"recorded": {k: r[k] for k in ("n", "tapes", "args", "ps", "what")}, "observed": show(r["obs"]),
-                                "config": "/".join(cfg), "verdict": v})
+                samples.append({"recorded": req, "observed": show(r["obs"]), "config": "/".join(cfg), "verdict": v})
+            continue
+        if v == "drift-batch1":
+            drift["batch1_sampled_statistic_axis_dropped"] += 1
+            b1_behaviour["variant"].setdefault(cfg, req)
+            pcfg(cfg)["ok"] += 1
             continue
         if v in ("invalid-request", "malformed"):
             raise lib.MachineryError(f"trace record {j} judged {v}: {json.dumps(r)[:300]}")
-        ts = r["tapes"]
         if any(m["kind"] == "counts" for t in ts for m in t["meas"]) and any(t["b"] for t in ts):
             drift["counts_broadcast"] += 1
             continue
-        pc["bad"] += 1
-        t0 = ts[0] if len(ts) == 1 else None
+        pcfg(cfg)["bad"] += 1
+        t0_ = ts[0] if len(ts) == 1 else None
         kinds = sorted({m["kind"] for t in ts for m in t["meas"]})
-        flag(r["what"], v, f"{sig_tape(t0) if t0 else 'batch'}:{'+'.join(kinds)}", cfg,
-             {k: r[k] for k in ("n", "tapes", "args", "wrap", "ps")}, {"k": "A", "s": [], "c": []}, r["obs"],
-             "recorded observation judged by Trace_ResultShape.tla (expected tree recomputed by TLC)")
+        flag(r["what"], v, f"{sig_tape(t0_) if t0_ else 'batch'}:{'+'.join(kinds)}", cfg, req, None, r["obs"],
+             "recorded observation judged by Trace_ResultShape.tla")
+    # the tolerated batch-size-1 variant must not depend on the configuration (that WOULD be the property)
+    if b1_behaviour["documented"] and b1_behaviour["variant"]:
+        ca, ra = next(iter(b1_behaviour["documented"].items()))
+        cb, rb = next(iter(b1_behaviour["variant"].items()))
+        viol.append(Violation(
+            key=f"res:config-dependent:b=1:finite-shots:{'/'.join(ca)}-vs-{'/'.join(cb)}",
+            detail=f"with a batch size of 1 and finite shots, expval/var/probs keep the broadcast axis on {sorted('/'.join(c) for c in b1_behaviour['documented'])} "
+                   f"and drop it on {sorted('/'.join(c) for c in b1_behaviour['variant'])}: the shape depends on the configuration",
+            replay={"keeps_axis": {"config": list(ca), "request": ra}, "drops_axis": {"config": list(cb), "request": rb}}))
 
-    # ------------------------------------------------------------ vacuity
-    cfg_ok = {k: v["ok"] + v["bad"] for k, v in per_cfg.items()}
+    # ---- vacuity
+    cfg_n = {k: v["ok"] + v["bad"] for k, v in per_cfg.items()}
     for d in DEVICES:
         for i in ITFS:
-            if sum(v for k, v in cfg_ok.items() if k.startswith(f"{d}/{i}/")) < 5:
-                raise lib.MachineryError(f"vacuous: fewer than 5 observations for {d} x {i}")
+            if sum(v for k, v in cfg_n.items() if k.startswith(f"{d}/{i}/")) < (3 if i == "jax" else 20):
+                raise lib.MachineryError(f"vacuous: too few observations for {d} x {i}: {cfg_n}")
     for m in DMS:
-        if sum(v for k, v in cfg_ok.items() if k.endswith("/" + m)) < 20:
-            raise lib.MachineryError(f"vacuous: fewer than 20 observations for diff method {m}")
+        if sum(v for k, v in cfg_n.items() if k.endswith("/" + m)) < 15:
+            raise lib.MachineryError(f"vacuous: fewer than 15 observations for diff method {m}")
     for k in ("jq", "jt", "jq_wrapped", "jq_shotvector", "jq_multi_meas"):
         if jcount[k] < 5 and not viol:
             raise lib.MachineryError(f"vacuous: branch '{k}' exercised {jcount[k]} times")
@@ -674,15 +528,22 @@ def run(tier, seed):
                      "axes appended, batch = tuple of tape results)",
                      "cases": {k: len(v) for k, v in fam.items()}, "bounds": dict(consts, shot_lists=shotlists, broadcast=bsizes,
                                                                                  jac_shot_lists=jshots, jac_arg_shapes=jargs)},
-           "agree": stats["agree"], "unsupported_configuration_exceptions": stats["exceptions"], "exception_types": exc_types,
+           "agree": stats["agree"], "jobs": len(jobs), "unsupported_configuration_exceptions": stats["exceptions"],
+           "exception_types": exc_types, "exception_examples": exc_examples,
            "jacobian_not_expressible_in_framework": stats["not_expressible"], "per_configuration": per_cfg,
            "jacobian_observations": jcount, "recorded_by_kind": t_by_what, "model_drift": drift,
-           "negative_controls_rejected": neg_rej, "tlc_wall_s": [round(g.wall_s, 1), round(tr.wall_s, 1)]}
+           "batch1_configurations": {k: len(v) for k, v in b1_behaviour.items()},
+           "negative_controls_rejected": neg_rej, "tlc_wall_s": [round(g.wall_s, 1), round(tr.wall_s, 1)],
+           "execute_wall_s": exec_wall, "waited_for_jax_worker_s": jax_wait, "calls_and_cpu_s_by_interface": cpu_by_itf}
     return CheckResult(coverage=cov, violations=viol, assumptions=[
-        "every enumerated request is replayed on all three devices with the numpy interface; the other (device, interface, diff method) "
-        "combinations are a seeded sample per request (all of them in the thorough tier except jax, which is sampled)",
+        "every enumerated request runs on default.qubit/numpy; the other (device, interface, diff method) combinations are a seeded "
+        "sample per request in the quick tier (one per request; thorough: all devices with numpy plus 14 sampled combinations); jax "
+        "evaluations are few (XLA warm-up) and run in a worker process",
         "configurations the library documents as unsupported are not attempted (backprop / adjoint with finite shots, adjoint off "
-        "default.qubit, qp.state on default.mixed); any other exception is counted, not judged",
+        "default.qubit or with non-expectation measurements, qp.state on default.mixed); any other exception is counted, not judged",
+        "batch size 1 with finite shots: expval/var/probs come back without the broadcast axis although the return type "
+        "specification asks for it; the statement only requires the shape to be a function of the request, so this is counted as "
+        "drift (model_drift.batch1_sampled_statistic_axis_dropped) and a violation is raised only if configurations disagree about it",
         "counts under parameter broadcasting: the return type specification leaves the container open, disagreements are drift",
         "list and tuple are interchangeable (return type specification); dtypes and values are not compared",
         "autograd Jacobians only for single-array results (the framework cannot differentiate tuple-valued functions); torch "
